@@ -171,3 +171,114 @@ Proof.
   assert (NoDup (map fst (matching_tab es))) as Hnd by (unfold matching_tab; rewrite number_fst; now apply (graph_wf_NoDup n)).
   apply (sel_inj a b (matching_tab es) Hnd H (x, v) Hx).
 Qed.
+
+(* ================= T3: the counting principle is satisfiable iff p divides M ================= *)
+Definition zsum (l : list Z) : Z := fold_right Z.add 0 l.
+Lemma zsum_map_add {A} (f g : A -> Z) l : zsum (map (fun x => f x + g x) l) = zsum (map f l) + zsum (map g l).
+Proof. induction l as [|x t IH]; cbn; [reflexivity|]. unfold zsum in *. lia. Qed.
+Lemma zsum_map_const {A} (c : Z) (l : list A) : zsum (map (fun _ => c) l) = c * len l.
+Proof. induction l as [|x t IH]; [cbn; unfold len; cbn; lia|]. cbn [map zsum fold_right]. fold (zsum (map (fun _ => c) t)). rewrite IH, len_cons. lia. Qed.
+Lemma zsum_map_ext_in {A} (f g : A -> Z) l : (forall x, In x l -> f x = g x) -> zsum (map f l) = zsum (map g l).
+Proof. intros H. f_equal. apply map_ext_in, H. Qed.
+Lemma zsum_b2z_filter {A} (P : A -> bool) l : zsum (map (fun x => b2z (P x)) l) = len (filter P l).
+Proof.
+  induction l as [|x t IH]; [reflexivity|]. cbn [map zsum fold_right filter]. fold (zsum (map (fun x => b2z (P x)) t)).
+  rewrite IH. destruct (P x); cbn [b2z]; rewrite ?len_cons; lia.
+Qed.
+
+Lemma double_count {A B} (P : A -> B -> bool) (la : list A) (lb : list B) :
+  zsum (map (fun x => len (filter (P x) lb)) la) = zsum (map (fun y => len (filter (fun x => P x y) la)) lb).
+Proof.
+  induction lb as [|y t IH].
+  - cbn [filter map zsum fold_right]. rewrite (zsum_map_const (len (@nil B)) la). unfold len at 1. cbn. lia.
+  - cbn [map zsum fold_right]. fold (zsum (map (fun y => len (filter (fun x => P x y) la)) t)). rewrite <- IH.
+    rewrite <- zsum_b2z_filter, <- zsum_map_add. apply zsum_map_ext_in. intros x _. cbn [filter].
+    destruct (P x y); cbn [b2z]; rewrite ?len_cons; lia.
+Qed.
+
+Lemma memz_In i S : memz i S = true <-> In i S.
+Proof.
+  unfold memz. rewrite existsb_exists. split.
+  - intros [x [Hx E]]. assert (i = x) by lia. now subst.
+  - intros H. exists i. split; [assumption|lia].
+Qed.
+
+Lemma count_members {l S : list Z} : NoDup l -> NoDup S -> incl S l ->
+  length (filter (fun i => memz i S) l) = length S.
+Proof.
+  intros Hl HS Hincl. apply Nat.le_antisymm.
+  - apply NoDup_incl_length; [now apply NoDup_filter|]. intros x Hx. apply filter_In in Hx as [_ Hx]. now apply memz_In.
+  - apply NoDup_incl_length; [assumption|]. intros x Hx. apply filter_In. split; [now apply Hincl|now apply memz_In].
+Qed.
+
+Lemma zrange_cons a b : a < b -> zrange a b = a :: zrange (a + 1) b.
+Proof.
+  intros H. unfold zrange. replace (Z.to_nat (b - a)) with (S (Z.to_nat (b - (a + 1)))) by lia.
+  cbn [seq map]. f_equal; [lia|]. rewrite <- seq_shift, map_map. apply map_ext. intros i. lia.
+Qed.
+Lemma zrange_nil a b : b <= a -> zrange a b = [].
+Proof. intros H. unfold zrange. replace (Z.to_nat (b - a)) with O by lia. reflexivity. Qed.
+
+Lemma zrange_in_combs : forall (n : nat) a b lo hi, Z.of_nat n = b - a -> a <= lo -> lo <= hi -> hi <= b ->
+  In (zrange lo hi) (combs (zrange a b) (Z.to_nat (hi - lo))).
+Proof.
+  induction n as [|n IH]; intros a b lo hi Hn H1 H2 H3.
+  - assert (hi = lo) by lia. subst. rewrite Z.sub_diag, zrange_nil by lia. destruct (zrange a b); cbn; now left.
+  - destruct (Z.eq_dec hi lo) as [->|Hne].
+    { rewrite Z.sub_diag, zrange_nil by lia. destruct (zrange a b); cbn; now left. }
+    rewrite (zrange_cons a b) by lia. replace (Z.to_nat (hi - lo)) with (S (Z.to_nat (hi - lo - 1))) by lia.
+    cbn [combs]. apply in_or_app. destruct (Z.eq_dec lo a) as [->|Hla].
+    + left. rewrite (zrange_cons a hi) by lia. apply in_map.
+      replace (hi - a - 1) with (hi - (a + 1)) by lia. apply (IH (a + 1) b (a + 1) hi); lia.
+    + right. replace (S (Z.to_nat (hi - lo - 1))) with (Z.to_nat (hi - lo)) by lia. apply (IH (a + 1) b lo hi); lia.
+Qed.
+
+Lemma filter_unique_len {A} (P : A -> bool) l x : NoDup l -> In x l -> P x = true ->
+  (forall y, In y l -> P y = true -> y = x) -> len (filter P l) = 1.
+Proof.
+  intros Hnd Hx Px Huniq.
+  assert (1 <= len (filter P l)) by (apply filter_len_exists; eauto).
+  assert (len (filter P l) <= 1); [|lia]. apply (filter_le1 P l Hnd). intros y z Hy Hz Py Pz.
+  rewrite (Huniq y Hy Py), (Huniq z Hz Pz). reflexivity.
+Qed.
+
+Theorem count_sat_iff M p : 0 <= M -> 1 <= p ->
+  ((exists a, irs_hold a (count_ir M p) = true) <-> (p | M)).
+Proof.
+  intros HM Hp. split.
+  - intros [a Ha]. apply count_T1 in Ha. unfold partition_of in Ha. set (B := count_sel a M p) in *.
+    pose proof (double_count (fun i S => memz i S) (upto M) B) as D.
+    rewrite (zsum_map_ext_in _ (fun _ => 1) (upto M)) in D by (intros i Hi; apply In_upto in Hi; now apply Ha).
+    rewrite (zsum_map_ext_in _ (fun _ => p) B) in D.
+    + rewrite !zsum_map_const, len_upto in D by assumption. exists (len B). lia.
+    + intros S HS. apply count_sel_blocks in HS. unfold count_blocks in HS. unfold len.
+      rewrite (@count_members (upto M) S).
+      * rewrite (combs_length _ _ _ HS). lia.
+      * apply NoDup_upto.
+      * eapply combs_elem_NoDup; [apply NoDup_upto|exact HS].
+      * intros y Hy. eapply combs_incl; eauto.
+  - intros [q Hq].
+    set (blk := fun S : list Z => match S with [] => false | x :: _ => ((x - 1) mod p =? 0) && zlist_eqb S (zrange x (x + p)) end).
+    destruct (count_T2 M p blk) as [a [Ha _]]; [|eauto].
+    intros i Hi. set (j := (i - 1) / p). set (x0 := j * p + 1).
+    pose proof (Z.div_mod (i - 1) p ltac:(lia)) as Edm. pose proof (Z.mod_pos_bound (i - 1) p ltac:(lia)) as Bm. fold j in Edm.
+    assert (0 <= j) as Hj0 by (apply Z.div_pos; lia).
+    assert (j < q) as Hjq by (apply Z.div_lt_upper_bound; nia).
+    assert (x0 + p <= M + 1) as Hx0 by (unfold x0; nia).
+    apply (filter_unique_len (memz i) _ (zrange x0 (x0 + p))).
+    + apply NoDup_filter, count_blocks_NoDup.
+    + apply filter_In. split.
+      * unfold count_blocks, upto. replace (Z.to_nat p) with (Z.to_nat (x0 + p - x0)) by lia.
+        apply (zrange_in_combs (Z.to_nat M) 1 (M + 1) x0 (x0 + p)); unfold x0; nia.
+      * unfold blk. rewrite (zrange_cons x0 (x0 + p)) by lia. rewrite <- (zrange_cons x0 (x0 + p)) by lia.
+        apply andb_true_iff. split; [|now apply zlist_eqb_spec].
+        unfold x0. replace (j * p + 1 - 1) with (j * p) by lia. rewrite Z.mod_mul by lia. reflexivity.
+    + apply memz_In, In_zrange. unfold x0. nia.
+    + intros S HS Hmem. apply filter_In in HS as [_ Hb]. unfold blk in Hb. destruct S as [|y0 r]; [discriminate|].
+      apply andb_true_iff in Hb as [Hmod Heq]. apply zlist_eqb_spec in Heq. rewrite Heq in Hmem |- *.
+      apply memz_In, In_zrange in Hmem.
+      assert (y0 = x0); [|now subst]. unfold x0.
+      pose proof (Z.div_mod (y0 - 1) p ltac:(lia)) as Ey. assert ((y0 - 1) mod p = 0) as Ey0 by lia. rewrite Ey0 in Ey.
+      assert ((y0 - 1) / p = j); [|nia].
+      unfold j. apply (Z.div_unique (i - 1) p ((y0 - 1) / p) (i - y0)); [lia|nia].
+Qed.
